@@ -23,7 +23,7 @@ CHECKS = {
             {'name': 'Harness_C04_artifact', 'pkg': 'saml', 'replay': 'direct', 'must_reach': ['accepted', 'rejected', 'accepted-by-artifact-signature'], 'validate_labels': ['accepted-by-artifact-signature'], 'label_prefix': 'C01', 'opts': {'time_res': 1000000, 'K': 1}},
             {'name': 'Harness_C01_flow', 'pkg': 'saml', 'replay': 'direct', 'must_reach': ['accepted', 'rejected', 'accepted-by-response-signature', 'accepted-by-assertion-signature'],
              'opts': {'time_res': 1000000}, 'quick': {'K': 1, 'params': {'assertions.max': 2}}, 'thorough': {'K': 1, 'params': {'assertions.max': 3}}},
-            {'name': 'Harness_C01_trust', 'pkg': 'saml', 'replay': 'direct', 'must_reach': ['accepted', 'rejected', 'accepted-by-fingerprint', 'accepted-by-pinned-certificate'],
+            {'name': 'Harness_C01_trust', 'pkg': 'saml', 'replay': 'direct', 'must_reach': ['accepted', 'rejected', 'accepted-by-fingerprint', 'accepted-by-pinned-certificate', 'accepted-with-two-signing-certificates'],
              'validate_labels': ['accepted', 'accepted-by-fingerprint', 'accepted-by-pinned-certificate'], 'opts': {'time_res': 1000000, 'K': 1}},
         ],
     },
